@@ -168,6 +168,43 @@ def run_one(args):
     return cid, {"status": rc, "errs": min(errs, 3), "file": st}, out[-600:]
 
 
+def cpu_family(vdir, cpucases, tier, rnd):
+    """the per-CPU cases: (case record, source) for every CPU whose uncorrupted program is accepted by the caller's calibration"""
+    from .. import codec as K
+    cpus = [c["name"] for c in K.cpu_list(vdir)]
+    corpus = {}
+    for cpu, text in K.corpus(set(cpus)):
+        if ":" in text or "," not in text and len(corpus.get(cpu, [])) > 1:
+            continue
+        corpus.setdefault(cpu, [])
+        if len(corpus[cpu]) < 3 and text not in corpus[cpu]:
+            corpus[cpu].append(text)
+    out = []
+    types = ["hex", "bin", "srec", "elf"]
+    for ci, cpu in enumerate(cpus):
+        insns = corpus.get(cpu, [])
+        base = [".org 0x100", "la:"] + ["  " + t for t in insns] + [".db 1, 2, 3, 4", "lb:"] + ["  " + t for t in insns[:1]] + [".db 5, 6, 7, 8"]
+        mn = insns[0].split()[0] if insns else "nop"
+        bad = {"unknown_mnemonic": ["  bogus_q 1, 2"], "nine_operands": ["  %s 1, 2, 3, 4, 5, 6, 7, 8, 9" % mn],
+               "unknown_mnemonic_in_if": [".if 1", "  bogus_q 1, 2", ".endif"], "db_range": [".db 300"]}
+        for k, c in enumerate(cpucases):
+            # quick: every (kind, terminator) of every CPU once, position and stale file by rotation
+            if tier == "quick" and c["kind"] != "none" and (c["pos"], c["stale"]) != (["first", "middle", "last"][(ci + len(c["kind"]) + len(c["term"])) % 3], (ci + len(c["term"])) % 2 == 0):
+                continue
+            if c["kind"] == "none" and (c["pos"] != "first" or c["stale"]):
+                continue
+            if c["kind"] == "nine_operands" and not insns:
+                continue
+            lines = list(base)
+            if c["kind"] != "none":
+                pos = {"first": 2, "middle": len(base) // 2, "last": len(base)}[c["pos"]]
+                lines = base[:pos] + bad[c["kind"]] + base[pos:]
+            lines += {"eof": [], "end": ["end"], "dotend": [".end"]}[c["term"]]
+            rec = dict(c, cpu=cpu, base=0, wrap="none", type=types[(ci + k) % len(types)])
+            out.append((rec, ".%s\n" % cpu + "\n".join(lines) + "\n"))
+    return out
+
+
 def run(tier, seed):
     chk = C.Check(PROP, tier, seed, "model_checking")
     vdir = C.ensure_build("rel")
@@ -178,8 +215,12 @@ def run(tier, seed):
     chk.add_tlc(mc)
     if not mc.ok:
         raise C.InfraError("MCProc: %s violated\n%s" % (mc.violated, mc.out[-1500:]))
-    g = C.tlc("GenProc", "gen_Proc_%s.cfg" % tier, rd, workers=4, heap="4g")
+    g = C.tlc("GenProc", "gen_Proc_%s.cfg" % tier, rd, workers=4, heap="4g", prefixes=("CASE ", "CPUCASES "))
     chk.add_tlc(g)
+    cpp = C.parse_payload(g.lines, "CPUCASES ")
+    if not cpp or len(cpp[0]) < 60:
+        raise C.InfraError("no per-CPU cases")
+    cpucases = sorted(cpp[0], key=lambda x: json.dumps(x, sort_keys=True))
     cs = [c for c in C.parse_payload(g.lines, "CASE ")
           if (c["kind"], c["wrap"]) not in EXCLUDE
           and not (c["kind"] == "none" and (c["wrap"] != "none" or c["pos"] != "first"))]
@@ -191,8 +232,11 @@ def run(tier, seed):
     os.makedirs(wd)
     jobs = []
     srcs = {}
+    fam = cpu_family(vdir, cpucases, tier, rnd)
+    ngen = len(cs)
+    cs = cs + [f[0] for f in fam]
     for i, c in enumerate(cs):
-        src = render(c)
+        src = render(c) if i < ngen else fam[i - ngen][1]
         srcs[i] = src
         jobs.append((exe, wd, "c%d" % i, c, src))
     results = {}
@@ -200,9 +244,14 @@ def run(tier, seed):
         for cid, ob, out in ex.map(run_one, jobs):
             results[int(cid[1:])] = (ob, out)
 
+    # calibration of the per-CPU family: a CPU whose uncorrupted program (ended by end of file) is not accepted is left out
+    # (with that terminator: `.end` is not a directive of every CPU)
+    uncal = {(c["cpu"], c["term"]) for i, c in enumerate(cs) if i >= ngen and c["kind"] == "none" and results[i][0]["status"] != 0}
     events = []
     for i, c in enumerate(cs):
         ob, out = results[i]
+        if "cpu" in c and ((c["cpu"], c["term"]) in uncal or (c["cpu"], "eof") in uncal):
+            continue
         events.append({"id": i, "bad": c["kind"] != "none", "obs": ob})
     goods = [e for e in events if not e["bad"] and e["obs"]["status"] == 0]
     bads = [e for e in events if e["bad"] and e["obs"]["status"] == 1 and e["obs"]["file"] == "absent" and e["obs"]["errs"] > 0]
@@ -233,6 +282,8 @@ def run(tier, seed):
         ob, out = results[cid]
         # identified by corruption kind, wrapping and what goes wrong (position/type/base vary)
         key = "Proc.%s@%s:%s" % (c["kind"], c["wrap"], v["why"].split(":")[0])
+        if "cpu" in c:
+            key = "Proc.%s.%s+%s:%s" % (c["cpu"], c["kind"], c["term"], v["why"].split(":")[0])
         chk.report(key, "%s (%s)\n%s--- output tail:\n%s" % (v["why"], json.dumps(c), srcs[cid], out[-300:]),
                    dict(case=c, source=srcs[cid], observed=ob, why=v["why"], output=out))
     kinds = sorted({c["kind"] for c in cs})
@@ -241,9 +292,11 @@ def run(tier, seed):
         distinct_nontrivial=len({srcs[i] for i, c in enumerate(cs) if c["kind"] != "none"}),
         rule="TLC enumerates base program x corruption kind (33) x position (first/middle/last) x wrapping "
              "(none, .if 1, .else part, macro body, .repeat, .scope) x output type x stale file planted; "
-             "combinations that can yield a valid program are excluded; non-trivial = corrupted; distinct by source",
+             "combinations that can yield a valid program are excluded; per-CPU family: for every CPU of cpu_list[] a program of its own "
+             "instructions (tests/comparison) x {unknown mnemonic, nine operands, unknown mnemonic inside .if, .db 300} x position x "
+             "{end of file, end, .end}; non-trivial = corrupted; distinct by source",
         traces_validated_against_impl=len(events) - len(canaries),
-        kinds=kinds, canaries=dict(injected=len(canaries), rejected=len(canaries)),
+        kinds=kinds, per_cpu_cases=len(fam), cpus_left_out=sorted("%s+%s" % u for u in uncal), canaries=dict(injected=len(canaries), rejected=len(canaries)),
         exhaustive=True))
     chk.samples = [srcs[i] for i in rnd.sample(range(len(cs)), 3)]
     chk.assumptions = ["only source-level corruption (not command-line errors)",
